@@ -256,6 +256,7 @@ func (tw *tokenWorld) policy(ch *kernel.Chooser) string {
 		// the policy may say no at any of its callbacks: when the request is validated, when it is created, or when
 		// the claims / user info of the exchanged token are decided
 		p.VetoAt = ch.Pick("", "create", "claims", "claims", "userinfo", "userinfo")
+		p.VetoError = ch.Pick("", "", "plain", "canceled")
 	case 1:
 		p.DefaultType = []oidc.TokenType{oidc.AccessTokenType, oidc.RefreshTokenType, oidc.IDTokenType}[ch.Int(3)]
 	case 2:
